@@ -226,11 +226,13 @@ impl Check for C15C {
                 chardata_extra: 0,
                 chardata_full: false,
                 attach_only: true,
+                attr_names: &[],
             },
             monitors: Monitors { tree: false, spec: false, order: false, chardata: false, serial: true },
             frontier,
             expand: stage != format!("bfs{}", depth - 1),
             order_queries: &[],
+            warm_queries: &[],
         })
     }
     fn case_cap(&self, tier: Tier) -> f64 {
